@@ -931,6 +931,100 @@ func genC11(p *Pkg) (map[string]string, error) {
 	}
 	b.WriteString("]\n\n")
 
+	// Go-native handlers (builtin_proxy.go nativeProxyHandler): which ProxyTrapConfig fields each method consults, in
+	// order, and whether a consultation is guarded by strToInt (integer-like string key)
+	b.WriteString("/-- per nativeProxyHandler method: the ProxyTrapConfig fields consulted in source order; a field read inside an `if idx, ok := strToInt(prop); ok` block is marked with `?int` -/\n")
+	b.WriteString("def nativeRouting : List (String × List String) := [\n")
+	{
+		var names []string
+		seenN := map[string]bool{}
+		fnames := make([]string, 0, len(p.Files))
+		for n := range p.Files {
+			fnames = append(fnames, n)
+		}
+		sort.Strings(fnames)
+		type ent struct {
+			name string
+			fd   *ast.FuncDecl
+		}
+		var ents []ent
+		for _, fn := range fnames {
+			for _, dcl := range p.Files[fn].Decls {
+				fd, ok := dcl.(*ast.FuncDecl)
+				if !ok || fd.Recv == nil || len(fd.Recv.List) != 1 {
+					continue
+				}
+				rt := fd.Recv.List[0].Type
+				if st, ok := rt.(*ast.StarExpr); ok {
+					rt = st.X
+				}
+				if id, ok := rt.(*ast.Ident); !ok || id.Name != "nativeProxyHandler" {
+					continue
+				}
+				if fd.Name.Name == "toObject" || seenN[fd.Name.Name] {
+					continue
+				}
+				seenN[fd.Name.Name] = true
+				ents = append(ents, ent{fd.Name.Name, fd})
+				names = append(names, fd.Name.Name)
+			}
+		}
+		sort.Slice(ents, func(i, j int) bool { return ents[i].name < ents[j].name })
+		for i, e := range ents {
+			var fields []string
+			var walk func(n ast.Node, guarded bool)
+			walk = func(n ast.Node, guarded bool) {
+				ast.Inspect(n, func(m ast.Node) bool {
+					if m == nil {
+						return false
+					}
+					if is, ok := m.(*ast.IfStmt); ok && is.Init != nil && strings.Contains(t.text(is.Init), "strToInt(") {
+						walk(is.Body, true)
+						if is.Else != nil {
+							walk(is.Else, guarded)
+						}
+						return false
+					}
+					if as, ok := m.(*ast.AssignStmt); ok && len(as.Rhs) == 1 {
+						if se, ok := as.Rhs[0].(*ast.SelectorExpr); ok {
+							if in, ok := se.X.(*ast.SelectorExpr); ok && in.Sel.Name == "handler" {
+								f := se.Sel.Name
+								if guarded {
+									f += "?int"
+								}
+								fields = append(fields, LeanString(f))
+							}
+						}
+					}
+					return true
+				})
+			}
+			// a trap read `if trap := h.handler.X; trap != nil { if idx, ok := strToInt(prop); ok {…} }` is guarded as a whole
+			for _, st := range e.fd.Body.List {
+				if is, ok := st.(*ast.IfStmt); ok && is.Init != nil {
+					g := strings.Contains(t.text(is.Body), "strToInt(")
+					if as, ok := is.Init.(*ast.AssignStmt); ok && len(as.Rhs) == 1 {
+						if se, ok := as.Rhs[0].(*ast.SelectorExpr); ok {
+							f := se.Sel.Name
+							if g {
+								f += "?int"
+							}
+							fields = append(fields, LeanString(f))
+						}
+					}
+				}
+			}
+			_ = walk
+			sep := ","
+			if i == len(ents)-1 {
+				sep = ""
+			}
+			fmt.Fprintf(&b, "  (%s, [%s])%s\n", LeanString(e.name), strings.Join(fields, ", "), sep)
+		}
+		_ = names
+	}
+	b.WriteString("]\n\n")
+
 	// checkHandler itself: `if handler := p.handler; handler != nil { return handler }; panic(TypeError)`
 	ch := p.FuncDecl("proxyObject", "checkHandler")
 	rv := p.FuncDecl("proxyObject", "revoke")
